@@ -168,12 +168,13 @@ fn c03_wait_registration() {
     core::mem::forget(p);
 }
 
-/// Departure of the only matched reliable reader while (`pending`) or before (`!pending`) a wait_for_acknowledgments
-/// is registered; `by_reader`: SEDP disposal of the reader (remove_discovered_reader), else removal of its participant
-/// (lease expiry / SPDP disposal / ignore_participant: remove_discovered_participant).
+/// Removal of the participant of the only matched reliable reader (remove_discovered_participant: lease expiry / SPDP
+/// disposal / ignore_participant) while a wait_for_acknowledgments waiter is parked (`pending`) or not.
+/// The parked waiter is installed directly: `wait_for_acknowledgments_notification == [sender]` is exactly the state
+/// notify_acknowledgments leaves behind an unacknowledging reliable reader (decided by c03_wait_registration).
 /// A parked waiter is completed by `OneshotSender::send`, which consumes the sender: "the wait list is empty" is
-/// exactly "no waiter is left hanging" (completed, or dropped = answered with an error).
-fn departure(by_reader: bool, pending: bool) {
+/// "no waiter is left hanging" (completed, or dropped = answered with an error).
+fn departure(pending: bool) {
     let cap = sp::Capture::new();
     let mut p = sp::participant(&cap, 0);
     let last: i64 = kani::any();
@@ -181,45 +182,26 @@ fn departure(by_reader: bool, pending: bool) {
     let mut w = s1::make_writer(0, 0, "A", DataWriterQos::const_default());
     s1::match_reader(&mut w, s1::remote_reader_guid(1, 1), true);
     w.writer.last_change_sequence_number = last;
-    w.wait_for_acknowledgments_notification.reserve(1); // capacity is not observable; keeps the pushes below growth-free
-    let wh = w.writer.instance_handle;
-    let ph = s1::install_publisher_with(&mut p, Some(w));
+    assert!(!w.writer.transport_writer.is_change_acknowledged(last), "harness: the matched reliable reader holds back acknowledgement");
     if pending {
         let (tx, rx) = oneshot::<DdsResult<()>>();
         core::mem::forget(rx);
-        p.notify_acknowledgments(&ph, &wh, tx);
-        assert!(
-            p.domain_participant.user_defined_publisher_list[0].data_writer_list[0].wait_for_acknowledgments_notification.len() == 1,
-            "C03: waiter parked behind the unacknowledging reliable reader"
-        );
+        w.wait_for_acknowledgments_notification.push(tx);
     }
+    let _ph = s1::install_publisher_with(&mut p, Some(w));
 
-    if by_reader {
-        p.verif_remove_discovered_reader(InstanceHandle::new(s1::remote_reader_guid(1, 1).into()), ph, wh);
-    } else {
-        p.remove_discovered_participant(&s1::remote_participant_handle(1));
-    }
+    p.remove_discovered_participant(&s1::remote_participant_handle(1));
 
     let w = &p.domain_participant.user_defined_publisher_list[0].data_writer_list[0];
     assert!(w.matched_subscription_list.is_empty(), "C03: the departed reader is no longer matched");
     assert!(
         w.writer.transport_writer.is_change_acknowledged(last),
-        "C03: after the only matched reliable reader departed no reader is left unacknowledged"
+        "C03: after the only matched reliable reader departed no reader is left unacknowledged (a new wait_for_acknowledgments is answered at once)"
     );
     assert!(
         w.wait_for_acknowledgments_notification.is_empty(),
         "C03: a parked wait_for_acknowledgments is completed once the unacknowledging reader has departed"
     );
-    if !pending {
-        // a wait_for_acknowledgments issued after the departure is answered at once (not parked)
-        let (tx, rx) = oneshot::<DdsResult<()>>();
-        core::mem::forget(rx);
-        p.notify_acknowledgments(&ph, &wh, tx);
-        assert!(
-            p.domain_participant.user_defined_publisher_list[0].data_writer_list[0].wait_for_acknowledgments_notification.is_empty(),
-            "C03: wait_for_acknowledgments after the departure is answered immediately"
-        );
-    }
     kani::cover!(true, "end reached");
     core::mem::forget(p);
 }
@@ -237,11 +219,11 @@ fn departure(by_reader: bool, pending: bool) {
 #[kani::stub(tracing::level_filters::LevelFilter::current, super::support_qos::tracing_off)]
 fn c03_departure_participant_pending__known() {
     s1::link_drop_glue();
-    departure(false, true);
+    departure(true);
 }
 
 // @check props=C03 tier=thorough
-// @desc sibling of KF-C03-1 with the trigger negated: the reader's participant is removed (remove_discovered_participant) while NO waiter is parked; afterwards the reader is unmatched, is_change_acknowledged(last) holds and a wait_for_acknowledgments issued after the departure is answered Ok immediately
+// @desc sibling of KF-C03-1 with the trigger negated: the reader's participant is removed (remove_discovered_participant) while NO waiter is parked; afterwards the reader is unmatched, its RTPS proxy is gone and is_change_acknowledged(last) holds, i.e. (c03_wait_registration) a wait_for_acknowledgments issued after the departure is answered at once
 // @bounds one writer, one matched reliable reader; last in [1, i64::MAX]
 // @assume negated trigger: no waiter is parked at the time of the participant removal
 // @enc DcpsDomainParticipant::remove_discovered_participant
@@ -253,5 +235,5 @@ fn c03_departure_participant_pending__known() {
 #[kani::stub(tracing::level_filters::LevelFilter::current, super::support_qos::tracing_off)]
 fn c03_departure__rest() {
     s1::link_drop_glue();
-    departure(false, false);
+    departure(false);
 }
